@@ -129,6 +129,36 @@ def _mismatch(kind, f, which):
     return sdss_specobjid(vals['plate'], vals['fiber'], vals['mjd'] + 50000, vals['run2d'], line=vals['line'])
 
 
+def run2d_arrays(ctx, cases):
+    """vN_M_P decoding on ARRAYS of identifiers: blocks of the enumerated cases in dump order, reversed, and with the
+    first element repeated at the end (equal first and last run2d, different ones between)."""
+    from pydl.pydlutils.sdss import unwrap_specobjid
+    if len(cases) < 3:
+        return
+    for start in range(0, len(cases) - 2, 5):
+        block = cases[start:start + 5]
+        for variant in ('asis', 'wrap', 'reversed+wrap'):
+            b = list(block)
+            if variant.startswith('reversed'):
+                b = b[::-1]
+            if variant.endswith('wrap'):
+                b = b + [b[0]]
+            ids = np.array([bits_to_int(e['id']) for _, e in b], dtype=np.uint64)
+            want = ['v%d_%d_%d' % tuple(c['str']) for c, _ in b]
+            ctx.evaluated(1, 'run2d_arrays')
+            ctx.validated()
+            for as_string in (False, True):
+                try:
+                    got = [str(x) for x in unwrap_specobjid(ids.astype(str) if as_string else ids).run2d]
+                except Exception as ex:
+                    got = ['%s: %s' % (type(ex).__name__, ex)]
+                if got != want:
+                    ctx.violation({'what': 'unwrap_specobjid on an array of %d ids (%s, %s): run2d strings %r, specified %r' % (
+                        len(b), variant, 'decimal strings' if as_string else 'uint64', got, want),
+                        'first_call': b[0][0], 'ids': [int(x) for x in ids], 'expected_run2d': want})
+                    return
+
+
 def vector_replay(ctx, kind, cases):
     """All in-range "array" cases of one kind in a single vectorised call; element-wise comparison."""
     names = OBJ if kind == 'obj' else SPEC
@@ -146,22 +176,26 @@ def vector_replay(ctx, kind, cases):
         return None, '%s: %s' % (type(ex).__name__, ex)
     got_int = [int(x) & (2**64 - 1) for x in got]
     bad = [k for k in range(len(cases)) if got_int[k] != want[k]]
-    # unpack the whole vector as integers and as decimal strings
+    # unpack the whole vector as integers (native and byte-swapped) and as decimal strings
     from pydl.photoop.photoobj import unwrap_objid
     from pydl.pydlutils.sdss import unwrap_specobjid
-    for as_string in (False, True):
+    for as_string in (False, True, 'swapped'):
         try:
             if kind == 'obj':
                 a = np.array(want, dtype=np.uint64).astype(np.int64)
-                u = unwrap_objid(a.astype(str) if as_string else a)
+                if as_string == 'swapped':
+                    a = a.astype(a.dtype.newbyteorder())       # same values, other byte order (as read from FITS)
+                u = unwrap_objid(a.astype(str) if as_string is True else a)
                 ucols = {'skyversion': u.skyversion, 'rerun': u.rerun, 'run': u.run, 'camcol': u.camcol,
                          'firstfield': u.firstfield, 'field': u.frame, 'object': u.id}
             else:
                 a = np.array(want, dtype=np.uint64)
-                u = unwrap_specobjid(a.astype(str) if as_string else a, run2d_integer=True)
+                if as_string == 'swapped':
+                    a = a.astype(a.dtype.newbyteorder())
+                u = unwrap_specobjid(a.astype(str) if as_string is True else a, run2d_integer=True)
                 ucols = {'plate': u.plate, 'fiber': u.fiber, 'mjd': u.mjd - 50000, 'run2d': u.run2d, 'line': u.line}
         except Exception as ex:
-            return None, 'unwrap(%s): %s: %s' % ('str' if as_string else 'int', type(ex).__name__, ex)
+            return None, 'unwrap(%s): %s: %s' % (as_string if as_string == 'swapped' else ('str' if as_string else 'int'), type(ex).__name__, ex)
         for n in names:
             neq = np.nonzero(np.asarray(ucols[n]).astype(np.int64) != cols[n])[0]
             bad.extend(int(k) for k in neq)
@@ -185,6 +219,7 @@ def run(ctx):
     cfg = 'MC_IdLayout_quick.cfg' if ctx.quick else 'MC_IdLayout_thorough.cfg'
     r = ctx.tlc('MC_IdLayout.tla', cfg, dump=True, timeout=1500)
     vec = {'obj': [], 'spec': []}
+    r2cases = []
     n = 0
     for st in core.iter_states(r):
         c, exp = st['c'], st['exp']
@@ -195,6 +230,8 @@ def run(ctx):
         c['str'] = list(c['str'])
         if any(v != RANGES[c['kind']][k][0] for k, v in c['f'].items()):
             ctx.nontriv((c['kind'], tuple(sorted(c['f'].items()))))
+        if c['str'] and not exp['err']:
+            r2cases.append((c, exp))
         if c['conv'] == 'array' and not exp['err']:
             vec[c['kind']].append((c, exp))
             if not ctx.quick and n % 40:
@@ -228,6 +265,7 @@ def run(ctx):
         if not good:
             ctx.violation({'what': 'call %s(%s, conv=%s) expected %s observed %s' % (c['kind'], c['f'], c['conv'], exp, obs),
                            'call': c, 'expected': exp, 'observed': obs}, finding=classify(c, exp, obs))
+    run2d_arrays(ctx, r2cases)
     for kind in ('obj', 'spec'):
         if not vec[kind]:
             continue
